@@ -58,7 +58,7 @@ def bank_cfg(rng, kind=None, max_filts=40, gammatone_scope_c07=False):
     else:
         cfg["order"] = int(rng.integers(3, 9)) if gammatone_scope_c07 else int(rng.integers(1, 9))
         if rng.random() < 0.04:
-            cfg["order"] = int(rng.choice([12, 20]))
+            cfg["order"] = int(rng.choice([12, 20, 22, 30]))
         cfg["max_centered"] = bool(rng.integers(2))
         cfg["scale_l2_norm"] = False if gammatone_scope_c07 else bool(rng.random() < 0.4)
         cfg["erb"] = bool(rng.integers(2))
